@@ -35,3 +35,16 @@ pub async fn gate(point: &'static str) {
         gate(point).await;
     }
 }
+
+/// Peer addresses to dial once at start-up, from `SIERRA_VERIF_DIAL` (comma-separated
+/// multiaddrs). The node itself has no peer list; discovery is mDNS only.
+pub fn dial_addrs() -> Vec<libp2p::Multiaddr> {
+    std::env::var("SIERRA_VERIF_DIAL")
+        .ok()
+        .map(|list| {
+            list.split(',')
+                .filter_map(|addr| addr.trim().parse().ok())
+                .collect()
+        })
+        .unwrap_or_default()
+}
